@@ -515,7 +515,7 @@ theorem lex_qEsc (n : Nat) : ∀ v : Bytes, v.length ≤ n → LexSafe v → ∀
             · rw [lexBody_plain 92 d _ (by simp [hd34, h39]) (by decide)]
               have := ih (d :: w') hlw hw rest
               rw [qEsc_cons] at this; simp only [hd34, if_false, List.cons_append, List.nil_append] at this
-              rw [this]; simp [qEsc, hd34]
+              rw [this]; simp [qEsc]
         · -- an ordinary byte: the rest of the text is not empty (at least the closing quote)
           have hne : ∃ d s, qEsc w ++ 34 :: rest = d :: s := by
             cases h : qEsc w ++ 34 :: rest with
@@ -628,5 +628,93 @@ theorem readLiteral_final (v rest : Bytes) (h : LexSafe v) :
   have : 34 :: (qEsc v ++ [34]) ++ rest = 34 :: (qEsc v ++ 34 :: rest) := by simp
   rw [this]
   simp [readLiteral, lex_qEsc _ v (Nat.le_refl _) h rest, pegText_qEsc v h]
+
+end Dump
+
+/-! ## part 5: `&` escaping, annotation regrouping -/
+namespace Dump
+
+/-- the buffer is a concatenation of `writeString` arguments -/
+theorem unescape_ws_concat (l : List Bytes) : htmlUnescape ((l.map (ws stdCfg)).flatten) = l.flatten := by
+  have hcat : (l.map (ws stdCfg)).flatten = ws stdCfg l.flatten := by
+    induction l with
+    | nil => simp [ws_flatMap]
+    | cons a l ih => simp [ih, ws_append]
+  rw [hcat, ws_plain]
+  have hc : cleanFor [38, 97, 109, 112, 59] r3 (l.flatten.map tk) = true := by
+    generalize l.flatten = s
+    induction s with
+    | nil => rfl
+    | cons c s ih =>
+      by_cases h : c = 38
+      · subst h; simpa [tk, cleanFor] using ih
+      · have h' : ¬ 38 = c := fun e => h e.symm
+        simp [tk, h, cleanFor, isPrefix, h', ih]
+  have h03 : rend r0 (l.flatten.map tk) = rend r3 (l.flatten.map tk) := by
+    generalize l.flatten = s
+    induction s with
+    | nil => rfl
+    | cons c s ih => by_cases h : c = 38 <;> simp [rend, tk, h, r0, r3, ih]
+  rw [h03, htmlUnescape, replaceAll, pass4_rend _ hc, rendF_plain]
+
+def annKeys (l : List Ann) : List Bytes := l.map (·.key)
+
+def WFAnn (l : List Ann) : Prop := (annKeys l).Nodup ∧ ∀ a ∈ l, a.vals ≠ []
+
+theorem annAppend_new (acc : List Ann) (k v : Bytes) (h : k ∉ annKeys acc) :
+    annAppend acc k v = acc ++ [⟨k, [v]⟩] := by
+  induction acc with
+  | nil => rfl
+  | cons a acc ih =>
+    simp only [annKeys, List.map_cons, List.mem_cons, not_or] at h
+    have hne : ¬ a.key = k := fun e => h.1 e.symm
+    simp [annAppend, hne, ih (by simpa [annKeys] using h.2)]
+
+theorem annAppend_last (acc : List Ann) (k : Bytes) (vs : List Bytes) (v : Bytes) (h : k ∉ annKeys acc) :
+    annAppend (acc ++ [⟨k, vs⟩]) k v = acc ++ [⟨k, vs ++ [v]⟩] := by
+  induction acc with
+  | nil => simp [annAppend]
+  | cons a acc ih =>
+    simp only [annKeys, List.map_cons, List.mem_cons, not_or] at h
+    have hne : ¬ a.key = k := fun e => h.1 e.symm
+    simp [annAppend, hne, ih (by simpa [annKeys] using h.2)]
+
+theorem foldl_same_key (acc : List Ann) (k : Bytes) (vs ws' : List Bytes) (h : k ∉ annKeys acc) :
+    (ws'.map fun v => (k, v)).foldl (fun acc kv => annAppend acc kv.1 kv.2) (acc ++ [⟨k, vs⟩]) = acc ++ [⟨k, vs ++ ws'⟩] := by
+  induction ws' generalizing vs with
+  | nil => simp
+  | cons w ws' ih => simp [annAppend_last acc k vs w h, ih]
+
+theorem regroup_go (acc l : List Ann) (hwf : WFAnn l) (hd : ∀ a ∈ l, a.key ∉ annKeys acc) :
+    (annFlatten l).foldl (fun acc kv => annAppend acc kv.1 kv.2) acc = acc ++ l := by
+  induction l generalizing acc with
+  | nil => simp [annFlatten]
+  | cons a l ih =>
+    obtain ⟨hnd, hne⟩ := hwf
+    simp only [annKeys, List.map_cons, List.nodup_cons] at hnd
+    have ha : a.key ∉ annKeys acc := hd a (by simp)
+    have hvals : a.vals ≠ [] := hne a (by simp)
+    obtain ⟨k, vals⟩ := a
+    cases vals with
+    | nil => exact absurd rfl hvals
+    | cons v vs =>
+      simp only [annFlatten, List.map_cons, List.cons_append, List.foldl_cons, List.foldl_append]
+      rw [annAppend_new acc k v ha, foldl_same_key acc k [v] vs ha]
+      have e1 : acc ++ [Ann.mk k ([v] ++ vs)] = acc ++ [Ann.mk k (v :: vs)] := by simp
+      rw [e1]
+      have hd' : ∀ b ∈ l, b.key ∉ annKeys (acc ++ [Ann.mk k (v :: vs)]) := by
+        intro b hb
+        simp only [annKeys, List.map_append, List.map_cons, List.map_nil, List.mem_append, List.mem_singleton, not_or]
+        refine ⟨by simpa [annKeys] using hd b (by simp [hb]), ?_⟩
+        intro e
+        have hm : b.key ∈ List.map (fun x : Ann => x.key) l := List.mem_map_of_mem (f := fun x : Ann => x.key) hb
+        rw [e] at hm
+        exact hnd.1 hm
+      rw [ih (acc ++ [Ann.mk k (v :: vs)]) ⟨hnd.2, fun b hb => hne b (by simp [hb])⟩ hd']
+      simp
+
+theorem regroup_flatten (l : List Ann) (h : WFAnn l) : annRegroup (annFlatten l) = l := by
+  have := regroup_go [] l h (by simp [annKeys])
+  simpa [annRegroup] using this
 
 end Dump
